@@ -15,13 +15,15 @@ var strPool = []string{
 	"nil", "true", "0", "-1", ":k", " ", "  a ", "\r\n", "a\\", "\\\"", "\"\"",
 	// text that means something to fmt, regexp, strconv or a template engine
 	"%", "%d", "50% done", "100%", "%%", "%s %v", "%!d(MISSING)", "\\u00e9", "\\x41", "\\t", "\x01", "\x7f", "\u00a0", "$1", "${x}", ".*", "\\d+", "a|b",
+	// JSON-looking text (raw form) holding characters whose UTF-8 encoding shares a byte with the raw quote ¬ (C2 AC)
+	"{\"price\": \"5 €\"}", "{\"k\": \"本ì\"}", "{\"¬\": \"Ьج\"}", "€", "本",
 }
 
 var keyPool = []string{"a", "b", "c", "k", "key", "x y", "", "A", "ʞa", "ʞb", "ʞc", "ʞk", "ʞkey", "ʞx-y", "1", "%d", "a\tb", "ʞ%s"}
 
 var symPool = []string{"$x", "$NUMBER", "$b", "a", "b", "x", "y", "foo", "bar-baz", "+", "-", "*", "/", "<=", "a1", "nil?", "swap!", "->", "x*", "é", "_", "λ"}
 
-var kwNames = []string{"a", "b", "k", "key", "x-y", "a1", "é", "+", "kw?"}
+var kwNames = []string{"a", "b", "k", "key", "x-y", "a1", "é", "+", "kw?", "ʞx", "ʞ", "a:b", "1"}
 
 func genString(r *rng) string {
 	if r.chance(1, 8) {
